@@ -102,6 +102,20 @@ Theorem C03_no_package_is_loud : forall cx, length (cx_lc cx) = S (length (cx_sr
 Proof. exact no_package_is_loud. Qed.
 Print Assumptions C03_no_package_is_loud.
 
+(* ... and symmetrically (LAST of the start symbol is the closing brace of the item): every derivable token sequence ends with
+   `}`, so trailing text after the item -- anything whose last token is not `}` -- always gets an Error *)
+Theorem C03_wellformed_ends_with_brace : forall l, der start_sym l ->
+  exists c text front, l = front ++ [(c, text)] /\ nth c gen_terminals ""%string = """}"""%string.
+Proof. exact wellformed_ends_with_brace. Qed.
+Print Assumptions C03_wellformed_ends_with_brace.
+Theorem C03_trailing_text_is_loud : forall cx, length (cx_lc cx) = S (length (cx_src cx)) ->
+  forall id fr, add_content cx id = Added fr ->
+  (forall l, lexes_to_eof (cx_src cx, 0%N) l ->
+     match rev l with [] => True | (c, _) :: _ => nth c gen_terminals ""%string <> """}"""%string end) ->
+  exists d, In d (fr_diags fr) /\ d_kind d = DError.
+Proof. exact trailing_text_is_loud. Qed.
+Print Assumptions C03_trailing_text_is_loud.
+
 (* non-vacuity: the start symbol is the nonterminal of OptAidl, and a concrete document is derivable *)
 Example C03_ex_start : start_sym = SNT 54 /\ nth (N.to_nat accept_prod) gen_production_text ""%string = "__OptAidl = OptAidl"%string.
 Proof. vm_compute. split; reflexivity. Qed.
